@@ -106,7 +106,7 @@ macro_rules! with_engine {
     };
 }
 
-pub const ALL_ENGINES: &[&str] = &["C02", "C03", "C04", "C05", "C06", "C07", "C08", "C09", "C10", "C11", "C16", "C17", "C20"];
+pub const ALL_ENGINES: &[&str] = &["C02", "C03", "C04", "C05", "C06", "C07", "C08", "C09", "C10", "C11", "C16", "C17", "C19", "C20"];
 
 fn do_replay<E: Engine>(engine: &E, path: &Path) -> i32 {
     match runner::replay(engine, path) {
